@@ -213,6 +213,18 @@ func buildOps() {
 		// the valid signature with its hints removed (a reused verification workspace that is not fully reset accepts these after the valid one)
 		{"dilithium.Verify(valid signature, hint section zeroed)", func() string { return fmt.Sprint(dilithium.Verify(dMsg, dSigNoHints, &dPK)) }},
 		{"dilithium.Verify(valid signature, last hint row emptied)", func() string { return fmt.Sprint(dilithium.Verify(dMsg, dSigLastRowEmpty, &dPK)) }},
+		// getters of the SHARED key object (lazily memoised values live here)
+		{"sharedKey.getters", func() string {
+			d := dKey()
+			return digest(d.GetAddress(), d.GetPK(), d.GetMnemonic(), d.GetHexSeed(), d.GetSeed())
+		}},
+		// custom-w verification that exits early (signature sized for another height; invalid size -> explicit refusal)
+		{"xmss.VerifyWithCustomWOTSParamW(256, blob sized for height 6)", func() string {
+			return fmt.Sprint(xmss.VerifyWithCustomWOTSParamW(xMsg, make([]byte, 4+32+34*32+6*32), xPK, 256))
+		}},
+		{"xmss.VerifyWithCustomWOTSParamW(4, invalid size)", func() string {
+			return fmt.Sprint(xmss.VerifyWithCustomWOTSParamW(xMsg, make([]byte, 4+32+133*32+4*32+1), xPK, 4))
+		}},
 		// same entry point with other parameters at the same height (a parameter cache keyed on part of the parameters)
 		{"xmss.VerifyWithCustomWOTSParamW(4, sized blob)", func() string { return fmt.Sprint(xmss.VerifyWithCustomWOTSParamW(xMsg, blobW4, xPK, 4)) }},
 		{"xmss.VerifyWithCustomWOTSParamW(256, sized blob)", func() string { return fmt.Sprint(xmss.VerifyWithCustomWOTSParamW(xMsg, blobW256, xPK, 256)) }},
@@ -231,6 +243,8 @@ func prepare(idx []int) {
 		}
 	}
 }
+
+var _ = prepare
 
 // fixtureDigest detects modification of the shared input buffers.
 func fixtureDigest() string {
